@@ -68,7 +68,7 @@ func runC13fifo(run *mc.Run) int {
 	var samples []any
 	lat := map[string]float64{}
 	for _, which := range []string{"syslog-ingester", "auditlog-ingester"} {
-		for _, state := range []string{"waiting-for-writer", "idle-open-pipe", "partial-record-buffered", "after-some-records", "idle-after-slow-handoff", "idle-after-the-writer-was-replaced", "blocked-handing-over-downstream", "waiting-for-writer-path-removed", "waiting-for-writer-path-recreated", "event-write-in-progress", "huge-partial-record-buffered"} {
+		for _, state := range []string{"waiting-for-writer", "idle-open-pipe", "partial-record-buffered", "after-some-records", "idle-after-slow-handoff", "idle-after-the-writer-was-replaced", "blocked-handing-over-downstream", "waiting-for-writer-path-removed", "waiting-for-writer-path-recreated", "event-write-in-progress", "huge-partial-record-buffered", "writer-stays-busy"} {
 			n++
 			name := which + "/" + state
 			path := filepath.Join(dir, fmt.Sprintf("c13-%d", n))
@@ -130,6 +130,25 @@ func runC13fifo(run *mc.Run) int {
 					for fionread(w) > 0 {
 						time.Sleep(time.Millisecond)
 					}
+				case "writer-stays-busy":
+					// the writer produces a record every 5 ms and goes on doing so after the cancellation (an ssh
+					// scan in progress): the worker stops all the same
+					busyStop := make(chan struct{})
+					defer close(busyStop)
+					go func(w *os.File) {
+						for i := 0; ; i++ {
+							select {
+							case <-busyStop:
+								return
+							default:
+							}
+							if _, err := fmt.Fprintf(w, "77 Invalid user scan%d from 1.2.3.4 port 22\n", i); err != nil {
+								return
+							}
+							time.Sleep(5 * time.Millisecond)
+						}
+					}(w)
+					time.Sleep(100 * time.Millisecond)
 				case "huge-partial-record-buffered":
 					// 1.25 MiB without a terminator so far (more than any cap one would put on a record), writer
 					// still connected
@@ -228,7 +247,7 @@ func runC13fifo(run *mc.Run) int {
 		}
 	}
 	cov := mc.Coverage{Level: "fault_enumeration", Evaluations: n, Distinct: n, Exhaustive: true, Samples: samples,
-		Rule:  "cancellation injected into SyslogIngester.Ingest and AuditLogIngester.Ingest on real FIFOs in each blocking state: waiting for a writer to open the pipe, blocked reading an idle open pipe, holding a partial record (a short one; 1.25 MiB), idle after some records, idle after a back-pressure episode in which downstream accepted nothing for 1.5 s (thorough 6 s), idle after the first writer left and a second one connected (if the worker serves it), parked inside the callback because downstream (correlator / record channel) never takes the hand-off, in the middle of a 400 ms event write; the worker must return within the bound and deliver nothing afterwards. distinct_nontrivial = cells (all are blocking states)",
+		Rule:  "cancellation injected into SyslogIngester.Ingest and AuditLogIngester.Ingest on real FIFOs in each blocking state: waiting for a writer to open the pipe, blocked reading an idle open pipe, holding a partial record (a short one; 1.25 MiB), idle after some records, idle after a back-pressure episode in which downstream accepted nothing for 1.5 s (thorough 6 s), idle after the first writer left and a second one connected (if the worker serves it), parked inside the callback because downstream (correlator / record channel) never takes the hand-off, in the middle of a 400 ms event write, while the writer keeps producing a record every 5 ms; the worker must return within the bound and deliver nothing afterwards. distinct_nontrivial = cells (all are blocking states)",
 		Extra: map[string]any{"bound_s": bound.Seconds(), "latency_s": lat}}
 	cov.Assumptions = []string{"real time: the bound (5 s) is three orders of magnitude above observed latencies; the OS scheduler is not controlled"}
 	return run.Finish(cov)
